@@ -22,7 +22,8 @@ SHARD = 60
 RULE = ("1-5 pipelined requests on one connection (HTTP/1.0 and 1.1; Connection absent/close/keep-alive in several "
         "spellings; GET, POST with Content-Length body, POST with chunked body; optional malformed Content-Length), each "
         "answered by a scripted WSGI app (status, 0-4 headers incl. optional own Server/Date, 0-6 body pieces incl. empty "
-        "ones, Content-Length absent / exact / shorter than the body / zero; generator or list style).  Request bytes are "
+        "ones, Content-Length absent / exact / shorter than the body / zero; generator or list style; optionally start_response "
+        "called twice with exc_info before the first write, first/second call with/without Content-Length, or illegally after the head was sent).  Request bytes are "
         "delivered in random fragments and the fake socket accepts random amounts per send.  A case is non-trivial when "
         ">= 2 requests were answered on the connection and at least one response had no Content-Length")
 MODELLED = ["request parsing is abstracted to (version, Connection header, body framing valid?) - the request bytes "
@@ -158,19 +159,51 @@ def fragment(data, cuts):
 
 # --------------------------------------------------------------------------- implementation run
 
-def _make_app(apps, calls):
+def eff_pieces(a):
+    """pieces the app gets to yield: an illegal late start_response call kills the generator before piece `late`"""
+    return a["pieces"][:a["late"]] if a.get("late") is not None else a["pieces"]
+
+
+def _make_app(apps, calls, notes=None):
+    import sys
+    notes = notes if notes is not None else []
+
     def app(environ, start_response):
         i = int(environ["PATH_INFO"][2:])
         calls.append(i)
         sc = apps[i]
         hdrs = [(n, v) for n, v in sc["headers"]]
         pieces = [bytes.fromhex(p) for p in sc["pieces"]]
+
+        def begin():
+            first = sc.get("first")
+            if first:   # PEP 3333: replace a response that has not been sent yet
+                start_response(first["status"], [(n, v) for n, v in first["headers"]])
+                try:
+                    raise RuntimeError("application failed after start_response")
+                except RuntimeError:
+                    start_response(sc["status"], hdrs, sys.exc_info())
+            else:
+                start_response(sc["status"], hdrs)
+
         if sc.get("style") == "list":
-            start_response(sc["status"], hdrs)
+            begin()
             return pieces
+
         def gen():
-            start_response(sc["status"], hdrs)
-            for p in pieces:
+            begin()
+            for j, p in enumerate(pieces):
+                if sc.get("late") is not None and j == sc["late"]:
+                    exc = RuntimeError("too late")
+                    try:
+                        raise exc
+                    except RuntimeError:
+                        try:   # head already sent: must re-raise exc, not replace anything
+                            start_response("500 Too Late", [("X-Late", "1")], sys.exc_info())
+                            notes.append(["late-accepted", i])
+                        except RuntimeError as ex:
+                            notes.append(["late-reraised", i, ex is exc])
+                            raise
                 yield p
         return gen()
     return app
@@ -267,8 +300,8 @@ def run_impl(case):
     from hio.base import tyming
 
     reqs, apps = case["reqs"], case["apps"]
-    calls = []
-    app = _make_app(apps, calls)
+    calls, notes = [], []
+    app = _make_app(apps, calls, notes)
 
     stream = b"".join(render_request(i, r) for i, r in enumerate(reqs))
     sock = FakeSock(fragment(stream, case.get("rx", [])), case.get("tx", []))
@@ -300,7 +333,7 @@ def run_impl(case):
             "out": bytes(sock.out).hex(),
             "closed": sock.closed,
             "closed_at": sock.closed_at,
-            "calls": calls,
+            "calls": calls, "notes": notes,
             "passes": passes,
             "unsent": len(server.servant.ixes[CA].txbs) if CA in server.servant.ixes else 0,
             "unread": len(sock.ready) + sum(len(f) for f in sock.frags),
@@ -373,7 +406,7 @@ def app_declared(a):
 
 
 def app_body(a):
-    body = b"".join(bytes.fromhex(p) for p in a["pieces"])
+    body = b"".join(bytes.fromhex(p) for p in eff_pieces(a))
     d = app_declared(a)
     return body if d is None else body[:d]
 
@@ -389,6 +422,9 @@ def oracle(case, obs):
                 f"{'a non-persistent request was answered' if must_close else 'every request was persistent'}")
     if obs["closed"] and obs["closed_at"] != len(data):
         return "bytes were sent after close"
+    for n in obs.get("notes", []):
+        if n[0] == "late-accepted" or (n[0] == "late-reraised" and not n[2]):
+            return f"start_response with exc_info after the head was sent did not re-raise the application's exception (request {n[1]})"
     if obs["calls"] != answered:
         return f"app invoked for requests {obs['calls']}, expected {answered} (request order / exactly once)"
     resps, rest = read_responses(data, len(answered))
@@ -480,6 +516,18 @@ def directed():
          "rx": [7, 1, 30, 0, 2, 50], "tx": [5, 0, 1, 200]},
         # malformed Content-Length in second request: connection closed, second unanswered
         {"reqs": [_req(), _req(body=("badlen", "abc")), _req()], "apps": [_app(pieces=["ok"]), _app(pieces=["no"]), _app(pieces=["no"])]},
+        # start_response called twice (exc_info) before anything is written: first CL / no CL x second CL / no CL, 1.1 and 1.0
+        {"reqs": [_req(), _req(), _req(), _req(), _req("1.0", "keep-alive"), _req("1.0", "keep-alive"), _req()],
+         "apps": [dict(_app("500 Replaced", headers=[ct], pieces=["replacement body longer than five"]), first={"status": "200 OK", "headers": [list(cl(5))]}),
+                  dict(_app("500 Replaced", headers=[cl(9)], pieces=["replacement"]), first={"status": "200 OK", "headers": [list(cl(2))]}),
+                  dict(_app("500 Replaced", headers=[cl(4)], pieces=["abcd", "ef"]), first={"status": "200 OK", "headers": []}),
+                  dict(_app("500 Replaced", pieces=["x", "", "yz"], style="list"), first={"status": "200 OK", "headers": [list(ct)]}),
+                  dict(_app("500 Replaced", headers=[cl(3)], pieces=["abc"]), first={"status": "200 OK", "headers": [list(cl(50))]}),
+                  dict(_app("500 Replaced", headers=[cl(3)], pieces=["abc"]), first={"status": "200 OK", "headers": []}),
+                  _app(pieces=["after"])]},
+        # the illegal second call after the head went out must re-raise; the response ends there
+        {"reqs": [_req(), _req()], "apps": [dict(_app(pieces=["sent", "more", "never"]), late=2), _app(pieces=["next"])]},
+        {"reqs": [_req(), _req()], "apps": [dict(_app(headers=[cl(4)], pieces=["se", "nt", "never"]), late=2), _app(pieces=["next"])]},
         # Connection: close on 1.1 with chunked response, empty body
         {"reqs": [_req(conn="close")], "apps": [_app("204 No Content" if False else "200 OK", pieces=[""])]},
     ]
@@ -536,8 +584,18 @@ def gen_case(rng, malformed=False):
             d = total if m < 0.6 else (rng.randint(0, total) if m < 0.9 or total == 0 else 0)
             name = rng.choice(["Content-Length", "content-length", "CONTENT-LENGTH"])
             headers.insert(rng.randint(0, len(headers)), [name, str(d)])
-        apps.append({"status": rng.choice(STATUSES).strip() if rng.random() < 0.95 else "200 OK", "headers": headers,
-                     "pieces": [p.hex() for p in pieces], "style": rng.choice(["gen", "gen", "list"])})
+        ap = {"status": rng.choice(STATUSES).strip() if rng.random() < 0.95 else "200 OK", "headers": headers,
+              "pieces": [p.hex() for p in pieces], "style": rng.choice(["gen", "gen", "list"])}
+        if rng.random() < 0.25:   # an abandoned first start_response call
+            fh = [list(h) for h in rng.sample(HEADER_POOL, rng.randint(0, 2))]
+            if rng.random() < 0.6:
+                fh.insert(rng.randint(0, len(fh)), ["Content-Length", str(rng.choice([0, 1, 3, 7, 40, 1000]))])
+            ap["first"] = {"status": rng.choice(STATUSES).strip(), "headers": fh}
+        apps.append(ap)
+    for ap in apps:   # an illegal late start_response call: only where the head is surely out and no clamp hides it
+        pcs = [bytes.fromhex(p) for p in ap["pieces"]]
+        if (ap["style"] == "gen" and len(pcs) >= 2 and pcs[0] and app_declared(ap) is None and rng.random() < 0.15):
+            ap["late"] = rng.randint(1, len(pcs) - 1)
     case = {"reqs": reqs, "apps": apps}
     if malformed:
         # a malformed request closes the connection at once and drops what is still queued of the previous
@@ -608,8 +666,11 @@ def to_coq(case, obs):
         rq = "{| Wsgi.r_v11 := %s; Wsgi.r_conn := %s; Wsgi.r_ok := %s |}" % (
             coq_bool(r["v"] == "1.1"), coq_option(r.get("conn"), _b, "bytes"), coq_bool(r["body"][0] != "badlen"))
         hs = coq_list(["(%s, %s)" % (_b(n), _b(v)) for n, v in a["headers"]], "bytes * bytes")
-        ap = "{| Wsgi.a_status := %s; Wsgi.a_headers := %s; Wsgi.a_pieces := %s |}" % (
-            _b(a["status"]), hs, coq_list([coq_bytes(bytes.fromhex(p)) for p in a["pieces"]], "bytes"))
+        f = a.get("first")
+        fst = "(@None (bytes * list Wsgi.header))" if not f else "(Some (%s, %s))" % (
+            _b(f["status"]), coq_list(["(%s, %s)" % (_b(n), _b(v)) for n, v in f["headers"]], "bytes * bytes"))
+        ap = "{| Wsgi.a_status := %s; Wsgi.a_headers := %s; Wsgi.a_pieces := %s; Wsgi.a_first := %s |}" % (
+            _b(a["status"]), hs, coq_list([coq_bytes(bytes.fromhex(p)) for p in eff_pieces(a)], "bytes"), fst)
         pairs.append(f"({rq}, {ap})")
     return "{| Wsgi.c_date := %s; Wsgi.c_conn := %s; Wsgi.c_out := %s; Wsgi.c_closed := %s |}" % (
         _b(DATE), coq_list(pairs, "Wsgi.req * Wsgi.app"), coq_bytes(bytes.fromhex(obs["out"])), coq_bool(obs["closed"]))
